@@ -1,11 +1,12 @@
 (* Syntax/TokenStream.v -- model of the parser's *token plumbing* (crates/cairo-lang-parser/src/
-   parser.rs): struct Parser fields lexer / current_terminals / eof / pending_trivia / offset /
-   current_width / last_trivia_length / pending_skipped_token_diagnostics / trivia_greens
-   (lines 48-80), advance / ensure_next_k_exists (90-108), Parser::new (170-199),
-   create_and_report_missing (320-327), parse_syntax_file's final step (347-360), unglue, take_raw,
-   skip_token, append_skipped_token_to_pending_trivia, skip_taken_node_with_offset, skip_until,
-   add_trivia_to_terminal, trivia_green, consume_pending_skipped_diagnostics, take, take_doc
-   (3569-3880).
+   parser.rs, line numbers as of /repo b48894d): struct Parser fields lexer / current_terminals /
+   eof / pending_trivia / offset / current_width / last_trivia_length /
+   pending_skipped_token_diagnostics / trivia_greens (48-81), advance / ensure_next_k_exists
+   (104-122), Parser::new (184-213), create_and_report_missing (328-337), parse_syntax_file's final
+   step (349-378), unglue (3588-3628), take_raw (3631-3638), skip_token (3642-3654),
+   append_skipped_token_to_pending_trivia (3658-3680), skip_taken_node_with_offset (3700-3735),
+   skip_until (3758-3787), add_trivia_to_terminal (3792-3842), trivia_green (3846-3858),
+   consume_pending_skipped_diagnostics (3862-3912), take (3916-3923), take_doc (3927-3975).
    The grammar (which operation comes next) is NOT modelled: [op] lists what the grammar can ask
    of the plumbing, [run_ops] executes any sequence of them.  Texts are lists of Unicode scalar
    values, offsets and widths are byte counts.  Rust `unwrap`/index panics of the plumbing become
